@@ -79,6 +79,42 @@ def monitor(obs, own_parity):
     return out
 
 
+def wire_monitor(wire, own_parity, channel_sids=()):
+    """judges the frames in the order they actually reached Transport.send_frame (after the sender's fragmentation and queue
+    cycling), using only facts the emitter decides alone: a stream it opens starts with the request frame; a fragment with FOLLOWS is
+    continued by a PAYLOAD fragment before anything else on that stream; nothing follows its own CANCEL / ERROR on a stream"""
+    out = []
+    st = {}
+    for idx, t in enumerate(wire):
+        f = parse_send(t)
+        sid, ty = f['sid'], f['ty']
+        if sid == 0:
+            continue
+        s = st.get(sid)
+        where = 'wire position %d: %s' % (idx, t[:60])
+        if s is None:
+            s = st[sid] = {'kind': 'ch' if sid in channel_sids else REQ.get(ty), 'own': sid % 2 == own_parity, 'follows': False, 'term': None}
+            if s['own'] and ty not in REQ:
+                out.append(('wire:frame-before-request-on-own-stream:' + ty, where))
+        else:
+            if s['follows'] and not (ty == 'PAYLOAD'):
+                out.append(('wire:frame-between-fragments:' + ty, where + ' while a fragmented frame of the stream is incomplete'))
+            if s['term'] and not s['follows']:
+                kind = 'channel-half-close' if s['kind'] == 'ch' else 'wire'
+                out.append(('%s:emits-%s-after-own-%s' % (kind, ty, s['term']), where))
+        s['follows'] = f['follows']
+        if not f['follows']:
+            # a completed frame: its type is the first fragment's, remembered in 'cur'
+            cur = s.pop('cur', ty)
+            if cur == 'ERROR' or ty == 'ERROR':
+                s['term'] = s['term'] or 'ERROR'
+            if ty == 'CANCEL' and s['own']:
+                s['term'] = s['term'] or 'CANCEL'
+        elif 'cur' not in s:
+            s['cur'] = ty
+    return out
+
+
 class C08(EngineProp):
     id = 'C08'
     lean_modules = ['RSocketModel.Props.C08']
@@ -182,7 +218,11 @@ class C08(EngineProp):
         parity = 0 if case['role'] == 'server' else 1
         seen = set()
         fails = []
-        for sig, what in monitor(obs, parity):
+        found = monitor(obs, parity)
+        if obs.get('final') and obs['final'].get('wire') is not None and case.get('kind') != 'lease':
+            chans = {s for k, s in zip(obs.get('kinds', []), obs.get('sids', [])) if k in ('chReq', 'chResp')}
+            found = found + wire_monitor(obs['final']['wire'], parity, chans)
+        for sig, what in found:
             if case.get('kind') == 'lease' and not case['lease_first'] and sig.startswith('frame-on-unopened-stream:'):
                 sig = 'lease-held-request-overtaken:' + sig.split(':')[1]
             if sig not in seen:
